@@ -1,9 +1,12 @@
 #!/bin/bash
-# re-evaluates every seeded change against the current /repo HEAD and the current checks (4 at a time)
+# re-evaluates every seeded change against the current /repo HEAD and the current checks (SEED_JOBS at a time)
 cd "$(dirname "$0")/.."
 ls seeded | grep -v INDEX | while read d; do
-  p=$(python3 -c "import json;print(json.load(open('seeded/$d/meta.json'))['property'])")
-  a=$(python3 -c "import json;print(' '.join(json.load(open('seeded/$d/meta.json')).get('also_checked',[])))")
-  echo "$d $p seeded/$d $a"
-done | xargs -P "${SEED_JOBS:-4}" -L 1 tools/seed_eval.py 2>&1 | grep -E "^(CAUGHT|MISSED|PATCH)" | sort
+  python3 - "$d" <<'PY'
+import json, sys
+d = sys.argv[1]
+m = json.load(open(f"seeded/{d}/meta.json"))
+print(" ".join([d, m["property"], f"seeded/{d}"] + m.get("also_checked", [])).strip())
+PY
+done | xargs -P "${SEED_JOBS:-4}" -I{} bash -c 'tools/seed_eval.py {}' 2>&1 | grep -E "^(CAUGHT|MISSED|PATCH)" | cut -c1-230 | sort
 tools/seed_index.py
